@@ -13,7 +13,7 @@ import (
 
 func init() {
 	Register(&Prop{
-		ID: "C03", Bubble: true, Run: runC03, QuickRuns: 1500,
+		ID: "C03", Bubble: true, Run: runC03, QuickRuns: 3000,
 		ExpectedProbes: []string{"refused", "borrowed_beyond_share"},
 		Rule: "one run = lookup or predicate partition strategy with 1..4 partitions (fractions k/32, sum <= 1, duplicate predicates for first-match), total limit 1..64, and a seeded history of TryAcquire (known / unknown / non-matching keys), Release, SetLimit (incl. <= 0), AddPartition and RemovePartition with tokens outstanding; sequential mode: lock-step equality of every result and of BusyCount / Limit / BinBusyCount / BinLimit with an executable reference gate (admitted iff total < L or bin < max(1, ceil(L x fraction)) of the current L); concurrent mode: 2..4 tasks under a seeded schedule, history checked with porcupine against the same gate; " +
 			"non-trivial = some request was refused or borrowed beyond its share, and (sequential) a partition was added/removed or the limit changed with tokens outstanding; distinct = distinct event hashes / choice tapes",
